@@ -558,3 +558,95 @@ Proof.
   destruct n as [|p]; [inversion He; subst; cok|].
   repeat (destruct p as [p|p|]; try discriminate He); inversion He; subst; clear He; cok.
 Qed.
+
+(** * merged regions are fresh (C10): for every NON-CODED catalogue entry, a region obtained by
+    merge_regions from any well-formed regions is observationally a default region (the coded
+    entries start empty but carry a dictionary / code table: their statements are C06, C07) *)
+Definition FOK (R : Region) : Prop := exists SP : RSpec R, @RegionOK R SP /\ @MergeFresh R SP.
+Definition FDOK (R : Region) (PI : PairIdx R) : Prop :=
+  exists SP : RSpec R, @RegionOK R SP /\ @MergeFresh R SP /\ inhabited (@Dense R SP PI).
+Lemma fdok_fok R PI : @FDOK R PI -> FOK R.
+Proof. intros (SP & H & F & _). exists SP. auto. Qed.
+Lemma fok_owned T : FOK (owned T).
+Proof. exists (owned_spec T). split; [apply owned_ok|apply owned_merge_fresh]. Qed.
+Lemma fdok_owned T : @FDOK (owned T) (owned_pair T).
+Proof. exists (owned_spec T). split; [apply owned_ok|]. split; [apply owned_merge_fresh|constructor; apply owned_dense]. Qed.
+Lemma fok_mirror T : FOK (mirror T).
+Proof. exists (mirror_spec T). split; [apply mirror_ok|apply mirror_merge_fresh]. Qed.
+Lemma fok_vec T : FOK (vec_region T).
+Proof. exists (vec_region_spec T). split; [apply vec_region_ok|apply vec_region_merge_fresh]. Qed.
+Lemma fok_string R : FOK R -> FOK (string_region R).
+Proof. intros (SP & H & F). exists (@string_spec R (fun _ => True) SP). split; [apply string_ok; exact H|apply (@string_merge_fresh R (fun _ => True) SP F)]. Qed.
+Lemma fdok_string R PI : @FDOK R PI -> @FDOK (string_region R) (@string_pair R PI).
+Proof.
+  intros (SP & H & F & [D]). exists (@string_spec R (fun _ => True) SP).
+  split; [apply string_ok; exact H|]. split; [apply (@string_merge_fresh R (fun _ => True) SP F)|]. constructor.
+  refine (@Build_Dense (string_region R) (@string_spec R (fun _ => True) SP) (@string_pair R PI) (@extent R SP PI D) _ _ _ _ _ _).
+  - apply (@of_to R SP PI D).
+  - apply (@extent_dflt R SP PI D).
+  - apply (@extent_clear R SP PI D).
+  - apply (@extent_merge R SP PI D).
+  - apply (@extent_sim R SP PI D).
+  - apply (@dense_push R SP PI D).
+Qed.
+Lemma fok_option R : FOK R -> FOK (option_region R).
+Proof. intros (SP & H & F). exists (@option_spec R SP). split; [apply (@option_ok R SP H)|apply (@option_merge_fresh R SP H F)]. Qed.
+Lemma fok_result A B : FOK A -> FOK B -> FOK (result_region A B).
+Proof.
+  intros (SA & HA & FA) (SB & HB & FB). exists (@result_spec A B SA SB).
+  split; [apply (@result_ok A B SA HA SB HB)|apply (@result_merge_fresh A B SA HA SB HB FA FB)].
+Qed.
+Lemma fok_tuple2 A B : FOK A -> FOK B -> FOK (tuple2 A B).
+Proof.
+  intros (SA & HA & FA) (SB & HB & FB). exists (@tuple2_spec A B SA SB).
+  split; [apply (@tuple2_ok A B SA HA SB HB)|apply (@tuple2_merge_fresh A B SA HA SB HB FA FB)].
+Qed.
+Lemma fok_slice R (O : IC (idx R)) : FOK R -> ICOk O -> FOK (slice R O).
+Proof. intros (SP & H & F) HO. exists (@slice_spec R O SP HO). split; [apply (@slice_ok R O SP H HO)|apply (@slice_merge_fresh R O SP H F HO)]. Qed.
+Lemma fdok_slice R (O : IC (idx R)) : FOK R -> ICOk O -> @FDOK (slice R O) (slice_pair R O).
+Proof.
+  intros (SP & H & F) HO. exists (@slice_spec R O SP HO). split; [apply (@slice_ok R O SP H HO)|].
+  split; [apply (@slice_merge_fresh R O SP H F HO)|constructor; apply (slice_dense_inst H HO)].
+Qed.
+Lemma fok_collapse R veq : FOK R -> (forall v w, veq v w = true -> v = w) -> FOK (collapse R veq).
+Proof.
+  intros (SP & H & F) Hs. exists (@collapse_spec R veq SP).
+  split; [apply (@collapse_ok R veq SP H Hs)|apply (@collapse_merge_fresh R veq SP H F)].
+Qed.
+Lemma fok_consec R PI (O : IC nat) chk : @FDOK R PI -> ICOk O -> FOK (@consec R PI O chk).
+Proof.
+  intros (SP & H & F & [D]) HO. exists (@consec_spec R SP PI D O HO chk).
+  split; [apply (@consec_ok R SP H PI D O HO chk)|apply (@consec_merge_fresh R SP H PI D F O HO chk)].
+Qed.
+Lemma fok_columns R (O : IC nat) chk : FOK R -> ICOk O -> FOK (columns R O chk).
+Proof.
+  intros (SP & H & F) HO. exists (@columns_spec R SP O HO chk).
+  split; [apply (@columns_ok R SP H O HO chk)|apply (@columns_merge_fresh R SP H F O HO chk)].
+Qed.
+
+Ltac fok :=
+  cbn [mr m_owned m_mirror m_vec m_string m_option m_result m_tuple2 m_slice m_slice_vec m_collapse m_consec m_columns];
+  repeat first
+    [ apply fok_owned | apply fok_mirror | apply fok_vec
+    | apply fok_string | apply fok_option | apply fok_result | apply fok_tuple2
+    | apply fok_slice | apply fok_columns | apply fok_consec
+    | (apply fok_collapse; [|solve [veq_sound]])
+    | apply fdok_owned | apply fdok_string | apply fdok_slice
+    | apply vec_ic_ok | apply index_list_ok | apply index_optimized_ok | apply ic_nat_ok ].
+
+(** the coded entries (dictionary / Huffman inside) and the two stated exceptions are excluded *)
+Definition structural (n : N) : bool :=
+  negb (N.eqb n 21 || N.eqb n 29 || ((41 <=? n) && (n <=? 51)))%N.
+
+Theorem catalogue_merge_fresh chk szs n e : entry chk szs n = Some e -> structural n = true ->
+  exists SP : RSpec (mr e), @RegionOK (mr e) SP /\
+    forall l, Forall (@inv _ SP) l -> @sim _ SP (merge (mr e) l) (dflt (mr e)).
+Proof.
+  intros He Hn.
+  assert (HF : FOK (mr e)).
+  { unfold entry in He.
+    destruct n as [|p]; [inversion He; subst; fok|].
+    repeat (destruct p as [p|p|]; try discriminate He); try discriminate Hn;
+      inversion He; subst; clear He; fok. }
+  destruct HF as (SP & H & F). exists SP. split; [exact H|exact F].
+Qed.
